@@ -81,6 +81,15 @@ def binds (s : Sig) : PyVal → Bool
 inductive CallOutcome where
   | ret (v : PyVal)
   | raised (cls : String) (msg : String) (isTypeError : Bool) (isAttributeError : Bool) (depth : Nat)
+  /-- The exception KIND: `raised` is an instance of `Exception` (an "ordinary" exception); `raisedBase` is a
+      `BaseException` that is NOT an instance of `Exception` — `SystemExit` (a handler calling `sys.exit()`),
+      `KeyboardInterrupt`, `GeneratorExit`, `asyncio.CancelledError`, a user class deriving from
+      `BaseException` directly.  It is neither a `TypeError` nor an `AttributeError` (both derive from
+      `Exception`), and an `except Exception` clause does not catch it: only a bare `except:` /
+      `except BaseException` does — which is what the handlers around a method call are (`_dispatch`: bare;
+      `_marshaled_single_dispatch`: `except BaseException`, fix 43f3faa; facts `dispatchCallCatchAll`,
+      `syncCallCatchAll`).  `depth` as for `raised`. -/
+  | raisedBase (cls : String) (msg : String) (depth : Nat)
 deriving Repr, Inhabited
 
 /-- A registered function or callable attribute; `body` receives the `params` value of the request
